@@ -188,8 +188,14 @@ class ArrList:
             n = self.len
             lo = i.start if i.start is not None else 0
             hi = i.stop if i.stop is not None else n
-            if isinstance(lo, int) and lo < 0 or isinstance(hi, int) and hi < 0:
-                raise EngineError("negative slice bounds on ArrList")
+            if isinstance(lo, int) and lo < 0:
+                lo = n + lo
+                if branch(lo < 0):
+                    lo = 0
+            if isinstance(hi, int) and hi < 0:
+                hi = n + hi
+                if branch(hi < 0):
+                    hi = 0
             if isinstance(lo, SymInt) and not cur().implied(lo.e >= 0):
                 raise EngineError("slice lower bound not provably >= 0")
             if isinstance(hi, SymInt) and not cur().implied(hi.e >= 0):
@@ -234,3 +240,22 @@ class ArrList:
     def select(self, i):
         """A[off + i] without bounds checks (for specifications)"""
         return mks(z3.Select(self.arr, _z(self.off + i)))
+
+
+class EnumView:
+    """enumerate(<symbolic list>): kept as a view so that a loop over it can be cut with an invariant"""
+
+    def __init__(self, base, start=0):
+        self.base, self.start = base, start
+
+    def length(self):
+        return self.base.length()
+
+    def getitem(self, interp, i):
+        return (self.start + i, self.base.getitem(interp, i))
+
+    def iterate(self, interp):
+        k = 0
+        for v in self.base.iterate(interp):
+            yield (self.start + k, v)
+            k += 1
